@@ -30,7 +30,7 @@ if mods:
         'LbzVerif.Props.C01.Prefix.decode_encode',
         'LbzVerif.Props.C04.collect_pack',
     ])
-inproc.run_libs(ck, ['w10_mtf', 'w11_prefix'])
+inproc.run_libs(ck, ['w10_mtf', 'w11_prefix', 'w16_transmit'])
 exe = ck.build_lbzip2(asan=False)
 evals = 0
 seen = set()
